@@ -222,12 +222,12 @@ def corpus_messages():
     msgs = []
     k = 0
     for tag, (cls, base, optional, child, vkind) in comp_codec.MSGS.items():
-        for variant in range(2):
+        for variant in (range(3) if child else range(2)):       # variant 2: a vector without children ("0..n children")
             children = None
             if child:
                 kind = comp_codec.PARTS[child][2]
                 children = []
-                for i in range(variant * 2 + (1 if variant == 0 else 0)):
+                for i in range({0: 1, 1: 2, 2: 0}[variant]):
                     if kind == "free":
                         v = texts[k % len(texts)]
                         k += 1
@@ -239,7 +239,7 @@ def corpus_messages():
             if "message" in optional and variant:
                 extra["message"] = texts[k % len(texts)]
                 k += 1
-            r = comp_codec.msg_recipe(tag, tuple(optional) if variant else (), children, extra=extra or None)
+            r = comp_codec.msg_recipe(tag, tuple(optional) if variant == 1 else (), children, extra=extra or None)
             msgs.append(comp_codec.build(r))
     return msgs
 
